@@ -23,10 +23,10 @@ func reI(g string, gn uint32, h string, j, fn int, a Arg) Instr {
 func callI(g string, gn uint32, j, fn int, a Arg) Instr {
 	return ins(g, gn, "ca", func(i *Instr) { i.Inst = j; i.Fn = fn; i.Arg = a })
 }
-func sg(gi, v uint32) Instr  { return Instr{G: Guard{K: "a"}, Op: "sg", A: gi, B: v} }
-func ag(gi uint32) Instr     { return Instr{G: Guard{K: "a"}, Op: "ag", A: gi} }
-func stI(a, v uint32) Instr  { return Instr{G: Guard{K: "a"}, Op: "st", A: a, B: v} }
-func sx(a uint32) Instr      { return Instr{G: Guard{K: "a"}, Op: "sx", A: a} }
+func sg(gi, v uint32) Instr        { return Instr{G: Guard{K: "a"}, Op: "sg", A: gi, B: v} }
+func ag(gi uint32) Instr           { return Instr{G: Guard{K: "a"}, Op: "ag", A: gi} }
+func stI(a, v uint32) Instr        { return Instr{G: Guard{K: "a"}, Op: "st", A: a, B: v} }
+func sx(a uint32) Instr            { return Instr{G: Guard{K: "a"}, Op: "sx", A: a} }
 func call(i, f int, a uint32) Step { return Step{Kind: "call", Inst: i, Fn: f, Arg: a} }
 
 var both = []string{"interpreter", "compiler"}
@@ -88,6 +88,53 @@ func corpus() []Case {
 		cs = append(cs, Case{W: w5, H: h})
 	}
 
+	// 1b. the same for EVERY concrete trapping instruction (trapVariants: all memory instructions out of bounds,
+	// all atomics unaligned, bulk memory and table instructions, every division and truncation): the trap is
+	// selected by the argument; every call starts and ends with atomic and plain memory effects on the same
+	// memory, so that anything a failed instruction leaves behind (a lock, a half-done write) shows in the
+	// next call of the same function object.
+	{
+		type tv struct{ kind, v string }
+		var all []tv
+		for _, k := range trapKinds {
+			for _, v := range trapVariants[k] {
+				all = append(all, tv{k, v})
+			}
+		}
+		const chunk = 20
+		for c0 := 0; c0 < len(all); c0 += chunk {
+			part := all[c0:min(c0+chunk, len(all))]
+			body := []Instr{ag(0)}
+			for i, v := range store8Variants {
+				in := sx(uint32(1 + i))
+				in.Variant = v
+				body = append(body, in)
+			}
+			for k, t := range part {
+				in := trapI("e", uint32(10+k), t.kind)
+				in.Variant = t.v
+				body = append(body, in)
+			}
+			for i, v := range store8Variants {
+				in := stI(uint32(8+i), uint32(40+i))
+				in.Variant = v
+				body = append(body, in)
+			}
+			body = append(body, ag(1))
+			w := World{ID: 100 + c0/chunk, Insts: [][]Func{{{Body: body}}, {{Body: []Instr{ag(0)}}}, {{Body: []Instr{sx(3), callI("a", 0, iB, 0, X), sg(1, 77)}}}, {{Body: []Instr{callI("a", 0, iA, 0, X)}}}},
+				StartC: []uint32{11}, Engines: both, Note: "trap catalogue: " + part[0].kind + "/" + part[0].v + " …"}
+			var h []Step
+			for x := uint32(9); x < uint32(10+len(part)); x++ {
+				h = append(h, call(iB, 0, x))
+				if x%4 == 2 {
+					h = append(h, call(iA, 0, x)) // the same failure inside an imported function
+				}
+			}
+			h = append(h, Step{Kind: "start", Inst: iS, Fn: 1}, call(iB, 0, 9))
+			cs = append(cs, Case{W: w, H: h})
+		}
+	}
+
 	// 2. recursion: unbounded (x = 1) and bounded, one function per frame size; same function objects reused.
 	{
 		var b []Func
@@ -122,9 +169,9 @@ func corpus() []Case {
 	// 3. the interpreter's frame ceiling, exactly: 2000 frames fit, 2001 do not; the host frame counts.
 	{
 		b := []Func{
-			{Body: []Instr{ag(0), callI("n", 0, iB, 0, M)}},                            // frames = x+1, g0 += x + ... 
-			{Body: []Instr{ag(0), callI("a", 0, iB, 1, X)}},                            // unbounded; g0 counts the frames
-			{Body: []Instr{callI("n", 0, iB, 2, M), hostI("e", 0, "ok", X)}},           // host call at the bottom
+			{Body: []Instr{ag(0), callI("n", 0, iB, 0, M)}},                  // frames = x+1, g0 += x + ...
+			{Body: []Instr{ag(0), callI("a", 0, iB, 1, X)}},                  // unbounded; g0 counts the frames
+			{Body: []Instr{callI("n", 0, iB, 2, M), hostI("e", 0, "ok", X)}}, // host call at the bottom
 		}
 		w := World{ID: 12, Insts: [][]Func{b, {{Body: []Instr{ag(0)}}}, {{Body: []Instr{callI("a", 0, iB, 0, X)}}}, {{Body: []Instr{ag(0)}}}},
 			StartC: []uint32{0}, Engines: []string{"interpreter"}, Note: "interpreter callStackCeiling boundary"}
